@@ -341,7 +341,7 @@ Section Upstream.
       end.
 
   (* ---------------------------------------------------------------- combined sources *)
-  (* SupportedSRS.__eq__ (list of SRS compared with _SRS.__eq__), list of plain format strings, coverage __eq__
+  (* SupportedSRS.__eq__ (the lists of srs_codes are equal), list of plain format strings, coverage __eq__
      (a BBOXCoverage never equals a GeomCoverage; geometries are equal when they have the same identifier) *)
   Definition cov_eqb (a b : wms_source) : bool :=
     match w_cov a, w_cov b with
@@ -362,7 +362,7 @@ Section Upstream.
   Definition compatible (static_ok : bool) (a b : wms_source) (q : query) : bool :=
     static_ok &&
     negb (rr_blocks (w_rr a) q) && negb (rr_blocks (w_rr b) q) &&
-    list_eqb srs_eq (w_srs a) (w_srs b) &&
+    list_eqb code_eq (w_srs a) (w_srs b) &&
     list_eqb (fun x y => f_id x =? f_id y) (w_fmts a) (w_fmts b) &&
     cov_eqb a b &&
     list_eqb dim_eqb (dims_for_params (w_fwd a) (q_dims q)) (dims_for_params (w_fwd b) (q_dims q)).
